@@ -1265,6 +1265,10 @@ func (t *typeParser) parse() typeParserResult {
 			count--
 
 			for _, param := range last.class.params {
+				if param.name == nil {
+					// not a "name:type" pair
+					continue
+				}
 				// decode the name
 				var name string
 				decoded, err := hex.DecodeString(*param.name)
